@@ -49,6 +49,15 @@ def cases(tier, seed, prop):
                 if subset[1]: gc.setdefault(esy, {}).setdefault(field_, {})[key] = planted(kind, key, 'gsyntax')
                 if subset[2]: c.setdefault(field_, {})[key] = planted(kind, key, 'user')
             out.append({'c': c, 'gc': gc, 'probes': probes, 'subset': subset, 'g': 'layers'})
+            if all(subset):
+                # two layers that say the same (whole tables equal by value) with a layer between them that says something else
+                for (lo, hi) in ((0, 2), (0, 1), (1, 2)):
+                    c4 = copy.deepcopy(c); gc4 = copy.deepcopy(gc)
+                    lay = [gc4[ety], gc4[esy], c4]
+                    if lay[lo] is lay[hi]: continue
+                    for field_ in ('options', 'snippets', 'variables'):
+                        if field_ in lay[lo]: lay[hi][field_] = copy.deepcopy(lay[lo][field_])
+                    out.append({'c': c4, 'gc': gc4, 'probes': probes, 'subset': subset, 'g': 'layers-equal'})
             if ety == 'markup' and any(subset) and any(k == 'vr' for k, _ in probes):
                 # the most specific layer that defines a variable sets it to the empty string
                 c3 = copy.deepcopy(c); gc3 = copy.deepcopy(gc)
@@ -101,6 +110,11 @@ def run(case, prop):
         want, ty, sy = expected(case)
         for (kind, key), g_, w in zip(case['probes'], got, want):
             if g_ != w: viol.append('layer-order| %s key %r with type %r syntax %r, layers present (global type, global syntax, user) = %r: effective value %r, the most specific layer defining it has %r' % (kind, key, ty, sy, case['subset'], g_, w))
+        # the effective jsx.enabled is what the parser obeys (`Foo.Bar` is one component name under JSX, an element with a class otherwise)
+        if ('o', 'jsx.enabled') in case['probes'] and ty == 'markup' and sy not in ('pug', 'slim', 'haml'):
+            w_ = want[case['probes'].index(('o', 'jsx.enabled'))]
+            o_ = expand('Foo.Bar', copy.deepcopy(c), copy.deepcopy(gc))
+            if ('<Foo.Bar' in o_) != bool(w_): viol.append('expand-option| expand(Foo.Bar, %r, %r) = %r although the effective jsx.enabled is %r' % (c, gc, o_, w_))
         # observed through expand as well: a user / global snippet must be what expands
         for kind, key in case['probes']:
             if kind == 'sn' and key.isalpha() and got[case['probes'].index((kind, key))] is not None and ty == 'markup' and sy not in ('pug', 'slim', 'haml'):
